@@ -40,6 +40,10 @@ def unclassified_public_methods():
     return sorted(names - WRITERS - READERS)
 
 
+class MonitorAlarm(Exception):
+    """Raised by a monitor hook (never by the library): aborts the battery."""
+
+
 def canon(x):
     """Canonical, order-insensitive where the API leaves order unspecified."""
     if isinstance(x, dict):
@@ -218,7 +222,7 @@ def run(t, probes, around=None, foreign=None, lite=False):
         except TraphException:
             v = ("refused",)
             n_refused += 1
-        except AssertionError:
+        except MonitorAlarm:
             raise
         except Exception as e:
             v = ("EXC", type(e).__name__)
